@@ -4,7 +4,7 @@
      Ser._net_make, Par._net_make, Network._net_make, NetlistMaker.__call__
    (node threading of the emitted netlist).  Tied to the code on every run by
    evaluating these definitions inside Coq on the inputs the real code ran on. *)
-Require Import LT.FieldSec LT.OnePort LT.OnePortNet Gen.OnePortGen.
+Require Import LT.FieldSec LT.QcI LT.OnePort LT.OnePortNet Gen.OnePortGen.
 From Coq Require Import List Bool Arith.
 Import ListNotations.
 Local Open Scope F_scope.
@@ -214,3 +214,9 @@ Definition simplify_q (s0 : Qc) (sp : Qc -> Qc) (t : tree (lf QcF)) : option (tr
 Definition netlist_q (t : tree (lf QcF)) : list (elt (lf QcF)) := netlist_of_tree QcF t.
 (* junk-free comparison: the real value may be complex infinity *)
 Definition vchk (x expected : Qc) : bool := qc_eqb x expected.
+
+(* ---- phasor-domain evaluation (ac sources, one angular frequency w): the same leaf table over the
+   Gaussian rationals with s = j w; an ac source of amplitude v and phase 0 has the phasor v *)
+Definition LDc (jw : qci) : lf QcIF -> ldata QcIF :=
+  ld (K:=QcIF) jw (fun a => jw) (ci0 : QcIF) (fun x => x) (fun x => x) (fun x => x) (fun x => x) (fun x => x) (fun v _ _ => v).
+Definition cchk (x expected : qci) : bool := qci_eqb x expected.
